@@ -28,7 +28,7 @@ import (
 )
 
 type lockSite struct {
-	where                              string
+	where                            string
 	kind, calls, rawUnlocks, relocks int
 }
 
